@@ -27,6 +27,62 @@ theorem C13_filter_pred (s : Img) (sels : List Sel) (p : RawDesc → Bool)
   simp only [hne, Bool.false_eq_true, ↓reduceIte]
   exact selectDescs_pure ph sels s.rds p hp
 
+/-- the same for selectors that include a caller's own function (`Sel.pred`): as long as no
+    selector answers with an error on an in-use descriptor of this image, the result is exactly
+    the live descriptors every selector accepts, in table order -/
+theorem C13_filter_quiet (s : Img) (sels : List Sel) (hne : s.isEmpty = false)
+    (hq : ∀ x ∈ sels, ∀ d ∈ s.rds, d.used = true → x.errOn ph d = none) :
+    getDescriptors ph s sels =
+      .ok ((live s.rds).filter (fun d => sels.all (fun x => x.holds ph d))) := by
+  unfold getDescriptors
+  simp only [hne, Bool.false_eq_true, ↓reduceIte]
+  refine selectDescs_pure ph sels s.rds _ (fun d hd hu => ?_)
+  have hq' : ∀ x ∈ sels, x.errOn ph d = none := fun x hx => hq x hx d hd hu
+  clear hq
+  induction sels with
+  | nil => simp [multiSel]
+  | cons x xs ih =>
+    have hx := hq' x (by simp)
+    simp only [multiSel, Sel.eval_quiet ph x d hx, List.all_cons]
+    cases hv : x.holds ph d <;> simp [ih (fun y hy => hq' y (by simp [hy]))]
+
+/-- a caller's own total predicate `p` selects exactly the live objects whose attributes satisfy it -/
+theorem C13_caller_predicate (s : Img) (p : RawDesc → Bool) (hne : s.isEmpty = false) :
+    getDescriptors ph s [.pred (fun d => .ok (p d))] = .ok ((live s.rds).filter (fun d => p (erase d))) := by
+  rw [C13_filter_quiet ph s _ hne (by intro x hx d _ _; simp at hx; subst hx; rfl)]
+  simp [Sel.holds]
+
+/-- a caller's function that answers with an error on an in-use descriptor makes the query fail
+    with that error (the first one in table order); stated for a single selector -/
+theorem C13_caller_error (s : Img) (x : Sel) (e : Err) (hne : s.isEmpty = false)
+    (h : x.firstErr ph s.rds = some e) :
+    getDescriptors ph s [x] = .error e := by
+  unfold getDescriptors
+  simp only [hne, Bool.false_eq_true, ↓reduceIte]
+  generalize s.rds = rds at h
+  induction rds with
+  | nil => simp [Sel.firstErr] at h
+  | cons d ds ih =>
+    unfold selectDescs
+    simp only [Sel.firstErr, List.findSome?_cons] at h
+    cases hu : d.used with
+    | false =>
+      simp only [hu, Bool.false_eq_true, ↓reduceIte] at h
+      simpa [hu] using ih h
+    | true =>
+      simp only [hu, ↓reduceIte] at h
+      cases he : x.errOn ph d with
+      | some e' =>
+        rw [he] at h
+        simp only [Option.some.injEq] at h
+        subst h
+        simp [multiSel, Sel.eval_loud ph x d e' he]
+      | none =>
+        rw [he] at h
+        simp only [Bool.not_true, Bool.false_eq_true, ↓reduceIte, multiSel, Sel.eval_quiet ph x d he]
+        have := ih h
+        cases hv : x.holds ph d <;> simp [this]
+
 /-- results are in table order and contain in-use descriptors only -/
 theorem C13_sublist (s : Img) (sels : List Sel) (r : List RawDesc)
     (hsel : ∀ x ∈ sels, x.noErr = true) (h : getDescriptors ph s sels = .ok r) :
